@@ -6,7 +6,8 @@ P=$1; shift
 [ -d "$P" ] && P="$P/patch.diff"
 if ! git -C /repo diff --quiet; then echo "repo dirty, refusing"; exit 3; fi
 git -C /repo apply "$(readlink -f "$P")" || { echo "patch does not apply"; exit 3; }
-trap 'git -C /repo checkout -- . ' EXIT
+EVBAK=$(mktemp -d); cp -a evidence/. $EVBAK/ 2>/dev/null
+trap 'git -C /repo checkout -- . ; cp -a $EVBAK/. evidence/ 2>/dev/null; rm -rf $EVBAK' EXIT
 for id in "$@"; do
   out=$(VERIF_SEED=${VERIF_SEED:-1} ./check "$id" ${TIER:-quick} 2>&1); rc=$?
   echo "== $id rc=$rc $(echo "$out" | grep -c '^VIOLATION') violation line(s)"
